@@ -349,7 +349,11 @@ func randAuth(rng *rand.Rand) auth {
 		}
 		return a
 	case 1:
-		return auth{Kind: "custom", TypeStr: []string{"CUSTOM_HEADER", "custom_header"}[rng.Intn(2)], Header: customNames[rng.Intn(len(customNames))], Token: randToken(rng)}
+		a := auth{Kind: "custom", TypeStr: []string{"CUSTOM_HEADER", "custom_header"}[rng.Intn(2)], Header: customNames[rng.Intn(len(customNames))], Token: randToken(rng)}
+		if rng.Intn(6) == 0 {
+			a.Token = "" // a custom header with an empty token: the header is configured, its value is empty
+		}
+		return a
 	}
 	return auth{Kind: "none"}
 }
@@ -1001,7 +1005,7 @@ func checkAuthHeaders(h map[string][]string, a auth, all []auth) string {
 }
 
 func body(r *ev.Run) {
-	r.Rule("seeded sequences of N operations over 4 URLs: register (BEARER | CUSTOM_HEADER with 5 header names | no requiredAuth; re-registration mostly with the same, sometimes other credentials) through POST /api/v1/webhook, DELETE, GET ?url=, restart (database.Init on the same file + new services), and notify = synchronous WebhooksService.Notify(event) with a scripted per-URL outcome from {200, 201, 500, 404, transport error, unreadable body}; max_tries in {1,2,3,10}; failure probability in {0.25,0.6,0.9}. A third of the sequences runs with a process time zone other than UTC; the reported time of the last attempt must lie in the bracket the harness measured around the Notify call (2 ms of slack): an attempt that leaves the reported time where it was is reported. Every sequence is executed twice: scripted WebhookTargetClient, and the production client against an httptest server. evaluations = executed (sequence, mode); distinct = distinct (mode, max_tries, operation/outcome string); non-trivial = the sequence delivered at least one failure and reached a deactivation or a reactivation in the model.")
+	r.Rule("seeded sequences of N operations over 4 URLs: register (BEARER | CUSTOM_HEADER with 5 header names | no requiredAuth; re-registration mostly with the same, sometimes other credentials) through POST /api/v1/webhook, DELETE, GET ?url=, restart (database.Init on the same file + new services), and notify = synchronous WebhooksService.Notify(event) with a scripted per-URL outcome from {200, 201, 500, 404, transport error, unreadable body}; max_tries in {1,2,3,10}; failure probability in {0.25,0.6,0.9}. A third of the sequences runs with a process time zone other than UTC; the reported time of the last attempt must lie in the bracket the harness measured around the Notify call (2 ms of slack): an attempt that leaves the reported time where it was is reported. Plus stores of 3-5 active webhooks in which the write that records the outcome of one webhook's call fails (each position in turn): the others still get their POST. Custom-header registrations include an empty token (the header is sent with an empty value). Every sequence is executed twice: scripted WebhookTargetClient, and the production client against an httptest server. evaluations = executed (sequence, mode); distinct = distinct (mode, max_tries, operation/outcome string); non-trivial = the sequence delivered at least one failure and reached a deactivation or a reactivation in the model.")
 	r.Assume("'non-200 reply' is taken literally (201 counts as a failure)",
 		"after re-registering an inactive URL with different credentials either set of credentials is accepted on the POST (statement silent)",
 		"last attempt status: must contain the HTTP status code for a reply, be non-empty for a transport/body error; last attempt time: any time after 1970",
@@ -1037,6 +1041,10 @@ func body(r *ev.Run) {
 		}
 		envs[mode] = e
 		return e
+	}
+	for i := 0; i < r.Pick(6, 60); i++ {
+		caseID := fmt.Sprintf("bookkeeping/%d", i)
+		r.Do(caseID, func() { bookkeepingFault(r, caseID, i) })
 	}
 	nSeq := r.Pick(400, 8000)
 	nOps := 40
